@@ -64,6 +64,19 @@ CLAIMED["C08"] = (
     "DESIGN.md section 6 C08",
 )
 
+CLAIMED["C36"] = (
+    "The real ArraySlicer (constructor variants, __matmul__, _slice_vector, _slice_matrix incl. the "
+    "compressed-storage arithmetic, transpose, pending-operation dunders) is executed on symbolic "
+    "operands - vectors, 2-d arrays, sparse matrices, AdArrays with arbitrary Jacobians, scalars - for "
+    "every injective index set within the bound and for sampled chains S0 @ S1 @ y, A @ S @ y, "
+    "c*S@y, c-S@y, c/S@y, c**S@y. z3 decides entry-wise equality with the explicit 0/1 projection "
+    "matrix applied to the same symbols; witnesses and counterexamples are replayed on float code.",
+    "Floats as exact reals; index sets are enumerated, not symbolic (k<=2 of 3 quick, k<=3 of 4 thorough; "
+    "chains up to length 3); numpy arrays as left operand of pending operations are documented as unsupported.",
+    "symbolic execution of ArraySlicer on z3 terms vs explicit projection matrix + SMT",
+    "DESIGN.md section 6 C36",
+)
+
 NOT_APPLICABLE = {
     "C11": "MPFA local systems are inverted in LAPACK/numba kernels on data-dependent block structures; a symbolic inverse of the interaction-region blocks is beyond z3/cvc5 and with concrete matrices nothing quantified remains for a solver.",
     "C13": "MPSA: same obstacle as C11 with 2-3x larger local systems.",
